@@ -272,6 +272,64 @@ func RestartLoop(seed int64, prog Program, n int) *RunResult {
 // working one, while a producer keeps submitting callbacks of one worker group (accepted from the
 // moment the state is started, i.e. also while the failing subscribe is still in progress). The
 // callbacks of the group must never overlap, whichever serve cycle accepted them.
+// MountAfterLookup: a resource id is looked up while no handler matches it (With and Resource report the
+// error), then a mux holding the matching handler is mounted: from then on With runs the callback - in the
+// handler's group - and reports no error.
+func MountAfterLookup(out *RunResult) {
+	viol := func(kind, text string) {
+		out.Violations = append(out.Violations, Violation{Property: "C02", Kind: kind, Text: text, Sig: map[string]string{"kind": kind, "engine": "sched"}})
+	}
+	for variant := 0; variant < 4; variant++ {
+		s := res.NewService("test")
+		s.SetLogger(nil)
+		s.SetWorkerCount(2)
+		get := res.GetResource(func(r res.GetRequest) { r.NotFound() })
+		s.Handle("a.$id", get)
+		name := "test.m.x.1"
+		if _, err := s.Resource(name); err == nil {
+			viol("with-no-error", "Resource on a resource id without handler returned nil")
+		}
+		if variant%2 == 1 {
+			s.GetHandler(name)
+		}
+		switch variant / 2 {
+		case 0:
+			s.Route("m", func(m *res.Mux) { m.Handle("x.$id", get, res.Group("mg")) })
+		default:
+			m := res.NewMux("")
+			m.Handle("x.$id", get, res.Group("mg"))
+			s.Mount("m", m)
+		}
+		served := make(chan struct{})
+		s.SetOnServe(func(*res.Service) { close(served) })
+		done := make(chan error, 1)
+		go func() { done <- s.Serve(rconn.New(nil)) }()
+		select {
+		case <-served:
+		case <-time.After(3 * time.Second):
+			return
+		}
+		ran := make(chan string, 1)
+		if err := s.With(name, func(r res.Resource) { ran <- r.Group() }); err != nil {
+			viol("with-error", fmt.Sprintf("With(%q) returned %v although a handler matches (it was mounted after the id had been looked up once)", name, err))
+		} else {
+			select {
+			case g := <-ran:
+				if g != "mg" {
+					viol("wrong-group", fmt.Sprintf("With(%q) ran in group %q, the handler's group is \"mg\"", name, g))
+				}
+			case <-time.After(2 * time.Second):
+				viol("lost", fmt.Sprintf("the callback of With(%q) did not run", name))
+			}
+		}
+		s.Shutdown()
+		select {
+		case <-done:
+		case <-time.After(3 * time.Second):
+		}
+	}
+}
+
 // TwoListenerLoop: the first life's Serve call is held in its OnServe callback while requests pile up in its
 // in-channel; the service is shut down and served again; then the first call is released and passes its backlog on
 // while the second life's listener receives requests too. Every callback must run in the worker group that its
@@ -372,6 +430,7 @@ func TwoListenerLoop(seed int64, prog Program, n int) *RunResult {
 		}
 		out.Steps++
 	}
+	MountAfterLookup(out)
 	return out
 }
 
